@@ -332,7 +332,10 @@ main(int argc, char **argv)
         fprintf(ops, "E rh %s\n", impl);
         fprintf(res, "E\n");
         int need_init = 1;
+        uint8_t *const buf_home = buf;
+        arena_setup();
         for (long n = 0; n < nops; n++) {
+                if (buf != buf_home) { arena_release(); buf = buf_home; }    /* the previous op used an arena buffer */
                 uint32_t c = need_init ? 5 : rng_below(&r, 100);
                 if (c < 4) { /* invalid window: only the return code; followed by a valid init */
                         uint32_t w = pick_bad_window(&r);
@@ -368,6 +371,10 @@ main(int argc, char **argv)
                         uint64_t ds = rng_u64(&r) >> 1;
                         uint32_t mask = pick_mask(&r);
                         uint32_t trig = (uint32_t) rng_u64(&r) & mask;
+                        if (rng_below(&r, 6) == 0) {      /* one scan in six over a buffer that straddles a 4 GiB boundary */
+                                uint8_t *sb = arena_straddle(&r, (size_t) len + SLACK, 1);
+                                if (sb) buf = sb;
+                        }
                         xs_bytes(ds, buf, len);
                         memset(buf + len, 0xA5, SLACK);
 
